@@ -7,6 +7,8 @@ import (
 func splitTagsByKeys[S ~[]string](tags S, keys S) (matched, unmatched S) {
 	split := 0
 	if len(keys) != 0 && len(tags) != 0 {
+		// tags belongs to the flushed map, which the other backends read at the same time: partition a copy
+		tags = append(S(nil), tags...)
 		for k := 0; k < len(keys); k++ {
 			for t := split; t < len(tags); t++ {
 				if strings.HasPrefix(tags[t], keys[k]+":") {
